@@ -331,6 +331,30 @@ class CountBits(Harness):
             if not np.array_equal(np.asarray(g), Hm.sum(axis=ax)):
                 bad.append(('count_bit_errors', 'axis=%r' % (ax, )))
                 break
+        # index arrays of different integer widths (the values of the wider
+        # one need not fit the narrower dtype), either order
+        small = [3, 200, 17, 0, 255]
+        wide = [259, 200, 273, 65536 + 5, 2**40 + 255]
+        expw = sum(bin(x ^ y).count('1') for x, y in zip(small, wide))
+        for d1 in (np.uint8, np.int16, np.uint16, np.int32, np.int64):
+            for d2 in (np.int64, np.uint64, np.int32, np.uint16):
+                try:
+                    f = np.array(small, dtype=d1)
+                    sec = np.array([w % (1 << (8 * np.dtype(d2).itemsize - 1))
+                                    for w in wide], dtype=d2)
+                except OverflowError:
+                    continue
+                e_ = sum(bin(int(x) ^ int(y)).count('1')
+                         for x, y in zip(f, sec))
+                for a_, b_ in ((f, sec), (sec, f)):
+                    try:
+                        g = int(misc.count_bit_errors(a_, b_))
+                    except Exception:      # numpy refuses some uint64 mixes
+                        continue
+                    if g != e_:
+                        bad.append(('count_bit_errors', 'dtypes=%s,%s' % (
+                            a_.dtype, b_.dtype), g, e_))
+                        break
         return dict(reproduced=bool(bad),
                     key='C15/bits/' + '+'.join(sorted({x[0] for x in bad})),
                     detail=bad)
@@ -357,6 +381,18 @@ class CountBits(Harness):
         for v in list(range(0, 19)) + vals[:40]:
             got = z3.simplify(z3.substitute(val2, (x, z3.BitVecVal(v, 64))))
             assert got.as_long() == misc.int2bits(v), (v, got)
+            k += 1
+        # the public functions on concrete arrays (axis argument, mixed
+        # integer widths): same oracle as the replay
+        for _ in range(4):
+            rp = self.replay(cfg, 'concrete', {
+                'n': rng.randrange(0, 2**63),
+                'a0': rng.randrange(0, 2**62), 'a1': rng.randrange(0, 256),
+                'b0': rng.randrange(0, 2**62), 'b1': rng.randrange(0, 2**20)})
+            if rp['reproduced']:
+                from pysym.runner import ConcreteViolation
+                raise ConcreteViolation(rp['key'] + ':concrete-probe',
+                                        rp['detail'])
             k += 1
         return k
 
